@@ -69,4 +69,20 @@ def run_case(ctx, k, rng):
             if len(rows) >= 3 and np.any(rows[:, :2] == -1):
                 ctx.mark_nontrivial(A, B)
         digests.append(rows[:, :2].tolist() if kind == "bn" else None)
+    # container of the input: the same diagrams as nested lists / integer arrays must again yield certificates of the same distance
+    if A.size and B.size and rng.random() < 0.25:
+        isint = bool(np.all(A == np.round(A)) and np.all(B == np.round(B)) and sc < 1e9)
+        fa, fb = (A.astype(np.int64), B.astype(np.int64)) if (isint and rng.random() < 0.5) else (A.tolist(), B.tolist())
+        for kind, fn, tolrow in (("bn", bottleneck, 1e-9 * sc), ("ws", wasserstein, 1e-7 * sc)):
+            try:
+                ctx.ran(2)
+                d0 = fn(A, B)
+                d, rows = fn(fa, fb, matching=True)
+                rows = np.asarray(rows).reshape(-1, 3)
+                okc, why, total = OM.certify(S, T, rows.tolist(), kind, tolrow)
+                same = abs(float(d) - float(d0)) <= (0 if kind == "bn" else 1e-7 * sc * (len(S) + len(T) + 1))
+                ctx.check("%s: list / integer input gives a certificate of the same distance" % kind, okc and same, reason=why,
+                          distance=d, float_distance=d0, form=type(fa).__name__)
+            except Exception as e:
+                ctx.exception("%s: list / integer input gives a certificate of the same distance" % kind, e)
     ctx.result(digests)     # bottleneck matchings may legitimately differ between hash seeds: recorded, not judged
